@@ -208,8 +208,8 @@ EXTRA = {
  "C15": " Head resets with no block following across a chunk boundary: a coinbase-only fork grows across the 1024-output boundary, the head is reset to fork blocks whose output set ends in the chunk before. Accumulator-level programs over output sets of up to 22 chunks (whole interior chunks spent, boundaries, multi-chunk rewinds, restart).",
  "C04": " Part C chains are 66 (quick) / 90 (thorough) headers long per production network, so the retarget window holds its full 61 real headers (irregular block times).",
  "C10": " Among the duplicate-entry perturbations: the same output (features + commitment) twice with different range-proof bytes. With the NRD feature flag off, feature tag 3 is an undefined tag: refused under every protocol version alike, as a feature set, a kernel and inside a transaction.",
- "C20": " Phase F: the public BIP32 route (ExtendedPubKey::derive_pub from the root) gives the public key and chain code of the privately derived child, ExtKeychain::derive_key(.., None) walks the same private route, hardened children are refused on the public route.",
- "C01": " Second binary (c16 --forged-for-c01, evidence under coverage.extra.pibd): whole-state acceptance through state sync — source chains whose headers commit to an unproven output or unsigned kernel (genesis output = leaf 0, or inside block 5 installed behind the pipeline) are served by Chain::segmenter() to a headers-only receiver; every segment is honest w.r.t. the header roots, validate_complete_state must refuse (Chain::validate(false) on the source is the control). Fee totals of multi-kernel transactions at and above 2^40. Whole-state acceptance: value-creating blocks (unsigned kernel hiding value, swapped range proofs, inflated output) installed behind the pipeline must fail Chain::validate(false), for even and odd kernel counts, in a state with 1067 unspent outputs (proof batches of 1000) and in states with 5095 kernels (signature batches of 5000; bad kernel in the first full batch / in the tail).",
+ "C20": " Phase F: the public BIP32 route (ExtendedPubKey::derive_pub from the root) gives the public key and chain code of the privately derived child, ExtKeychain::derive_key(.., None) walks the same private route, hardened children are refused on the public route. Every fifth proof case also over extra data (empty or 1-64 bytes): verify and rewind over the same data.",
+ "C01": " Second binary (c16 --forged-for-c01, evidence under coverage.extra.pibd): whole-state acceptance through state sync — source chains whose headers commit to an unproven output or unsigned kernel (genesis output = leaf 0, or inside block 5 installed behind the pipeline) are served by Chain::segmenter() to a headers-only receiver; every segment is honest w.r.t. the header roots, validate_complete_state must refuse (Chain::validate(false) on the source is the control). Fee totals of multi-kernel transactions at and above 2^40. Whole-state acceptance: value-creating blocks (unsigned kernel hiding value, swapped range proofs, inflated output) installed behind the pipeline must fail Chain::validate(false), for even and odd kernel counts, in a state with 1067 unspent outputs (proof batches of 1000) and in states with 5095 kernels (signature batches of 5000; bad kernel in the first full batch / in the tail). Block operators whose coinbase KERNEL excess carries the created value (output claims more, excess = output - subsidy, foreign or random signature).",
  "C02": " validate_tx probes: the transactions of the world's blocks are offered to Chain::validate_tx after every delivery and judged against the replayed unspent set. About half of the blocks with inputs are delivered with (features, commitment) inputs; a fifth forged kind mislabels an input's features; compaction x reorg scenarios also with the competing fork's headers known before the compaction and with the spent sibling pairs created in the very horizon block; the Merkle proofs the node serves for unspent outputs must verify against the reference root. The shared compaction scenario also brings up a follower from the state archive the subject serves (headers, txhashset_read -> txhashset_write, then the blocks above the archive header): what the follower reports as unspent is the replayed state right after the sync and at the tip. A directed validate_tx probe of the class 'inputs unspent, one output re-creating an unspent commitment'.",
  "C03": " Orders in which an orphan is handed over several times before its parent arrives. The committed header_head obeys the same more-work rule. Deep world: a 107-block chain with 1035 outputs (two bitmap chunks) with a 2-block fork whose newer block spends outputs of the oldest chunk against a heavier 3-block fork in four delivery orders, and a 62-block fork leaving the chain 60 blocks below the head (parent-first and header batches first). The orphan pool exactly at its capacity: MAX_ORPHAN_SIZE distinct blocks waiting for their parent (headers known), some handed over again while they wait, the parent last; six orders including a sequential control end on the same head and state.",
  "C05": " Genuine simple cycles of other lengths (2..41, 43..50) of the same header-seeded graph are presented through pow::verify_size.",
@@ -221,7 +221,7 @@ EXTRA = {
  "C12": " Outputs created, spent and created again (the commitment occurs twice on one side: exactly the matched pairs go, operand sets that would leave a duplicate must be refused); every second hydration takes the node's route through Pool::retrieve_transactions. Operand sets without a single output between them (transactions that spend everything as fee).",
  "C13": " Pool decisions for all three rules with the header chain on a competing fork (one above / level with / one below the body head); decisions taken by a node closed and reopened right before them (start-up index rebuild). The same NRD kernel mined 4-6 times on one chain, with forks that leave the chain below two or more of those occurrences and carry the kernel again one block early / exactly at / one block after the threshold, a restart before the fork, and the chain reorganising to the fork and back: every block judged by the reference ledger on its own ancestry. One pool kept through a reorganisation onto a heavier but SHORTER fork: stem transactions exactly on their thresholds are handed to it again afterwards (which fluffs them) and judged at the next height of the new fork, offsets -1 / 0 / +1; being in the txpool counts as accepted. One transaction spending a mature and an immature coinbase (both input orders); immature spends in blocks whose (features, commitment) inputs declare the coinbase a plain output.",
  "C14": " Header chain ahead of the body chain (headers announced without bodies, then a submission locked just beyond the body chain's next height); every second real mine whose set the reference rules accept goes through the miner's own template builder (mine_block::get_block, hook H7; it retries for ever on failure, so a time-out is the verdict) and the returned block must sit on the head, carry exactly the mineable kernels and be accepted. Immature coinbase spends also as (features, commitment) inputs that declare the coinbase a plain output; a refused mined block names its cause (entry inadmissible when admitted / height of the next block fell after admission), so the recorded reorg-to-lower-height finding cannot hide another. A weight-boundary operation: a fan-out and its consolidating child in the pool, fillers walking the pool weight across the mineable limit, the mineable set assembled and weighed after every step. A dependent chain that exists in the stempool only, then a txpool submission spending the parent's input otherwise (directed operation in every sequence).",
- "C16": " A boundary world whose archive header commits to exactly 1024 outputs; hostile archives in which an unspent leaf is re-labelled with its leaf hash recomputed (sibling spent / unspent). A source whose first 1099 outputs (genesis output included) are all spent at the archive header: an all-zero bitmap chunk in front of a non-zero one, uncompacted (odd seeds) / compacted (even seeds).",
+ "C16": " A boundary world whose archive header commits to exactly 1024 outputs; hostile archives in which an unspent leaf is re-labelled with its leaf hash recomputed (sibling spent / unspent). A source whose first 1099 outputs (genesis output included) are all spent at the archive header: an all-zero bitmap chunk in front of a non-zero one, uncompacted (odd seeds) / compacted (even seeds). Every second refused archive leaves the unpacking sandbox uncleaned before the honest archive follows; plain sources are asked for their segmenter on a fork across the archive header that is then reorganised away.",
  "C17": " Every second run starts with the database file just below its first map enlargement, so the resize gate (wait for all open transactions, keep new ones out) is crossed while every thread is busy. Second binary (c17w, evidence under coverage.extra.wiring): the node's own wiring — Chain + TransactionPool + PoolToChainAdapter + ChainToPoolAndNetAdapter + NetToChainAdapter as servers/src/grin/server.rs builds them — shared by peer threads (block_received / header_received / compact_block_received, compact blocks hydrated from the pool), transaction relays (transaction_received), a miner (mine_block::get_block through hook H7: pool lock then chain locks; templates checked against the reference commitments, some mined and submitted) and look-up threads; same watchdog / HeadMove-log / end-state oracles plus the pool some sequential order would leave. Two archive-server threads per run (txhashset_read of the head / its parent: every handed-out file must be the finished archive, which must unpack completely) and kernel look-ups among the readers. Deterministic companion: body head on a fork with transactions while the header chain is on a heavier header-only fork with fewer kernels (24 / 96 states), every kernel of the body chain looked up through get_kernel_height from a helper thread — a look-up that does not return within 2 x 30 s holds the header MMR lock for ever (defect 56339d478, found by the concurrent runs); 20 other read calls of the API / sync code (get_header_for_output, get_merkle_proof_for_pos, unspent_outputs_by_pmmr_index, block_height_range_to_pmmr_indices, get_last_n_*, fork_point, check_txhashset_needed, txhashset_archive_header[_header_only], get_locator_hashes, difficulty_iter, get_header_by_height) must come back without a panic in the same state. A stall is decided in place (no re-execution) when, for a further 20 s, nothing progresses, the process burns no CPU time and the thread dump shows two or more threads parked on locks and none in file I/O; otherwise only a stall that recurs when the run is executed again alone is a violation. Hook H9 (both binaries): a count of live database transactions kept next to every transaction object, independently of the store's gate; no enlargement of the map may start while a transaction of that environment is live. The UTXO scan behind the get_unspent_outputs API among the reader roles: never fails while blocks are processed, every output comes with the range proof made for it.",
  "C18": " Both layers also put the COMMITTED bytes of a key again inside a batch that changed or deleted it (values are otherwise unique). Second binary (c18c, evidence under coverage.extra.chainstore): the same overlay-model oracle one layer up, on the chain's own store — ChainStore::Batch helpers (heads, headers, blocks, sums, spent index, output_pos index and its iterator), child batches to depth 3 including parents that write only through their children, the NRD recent-kernel index (push / pop / pop_back / rewind / peek / clear and whole-list walks) — with reads inside batches, through the store's own handle while a batch is open, and after close + reopen. Reader storm (hook H9): 24 / 240 worker processes in which a writer grows a fresh store through ~6 enlargements while 6 readers keep exists / get_ser / iter transactions coming, schedule perturbed at every transaction-open point; every read answers with committed data, the writer never fails, the worker is not killed by a signal, and the live-transaction monitor saw no enlargement start with a transaction of that environment live. A reader that stays: an iterator kept open on another thread across a due enlargement (the writer may wait, nothing may fail, the iterator sees its snapshot). Storm runs with 6 / 2 / 1 readers, every fourth with the writer holding an iterator on a second environment. Single-writer ladders of batches just inside the 10 % headroom (60 profiles on fresh 1 MiB stores, one value per batch): no batch fails for lack of space.",
  "C19": " The sending half of a real connection: the same sequences handed to ConnHandle::send of a conn::listen connection (writer thread, write_message, attachment streamed from a file) and read by conn::listen on the other end. The limit cases also under Mainnet parameters in a process of their own (unknown-type bodies of 47 999 .. 1 000 000 bytes and up to the 5.4 MB limit, each followed by a sentinel); handshake followed by traffic in the same segment; self connection after 1 / 99 / 150 outbound handshakes. The recorded count-below-content finding is keyed per message type (GetHeaders, PeerAddrs): a Headers frame read with bytes left over is a violation of its own. Under Mainnet parameters a frame larger than any the test networks allow, immediately followed by a header list of 1..65 headers (production genesis headers, order-sensitive pattern) and a ping: handed out whole and in order.",
